@@ -150,6 +150,47 @@ pub fn check(c: &Case, obs: &mut Obs) -> Result<(), String> {
         return Err(format!("LazyValue::to_value = {lv:?}"));
     }
 
+    // "the same question on the decoded tree": the library's own tree accessors on the
+    // decoded value must give what the byte-level ones give (both are compared with the model)
+    {
+        let v = nopanic("from_slice", || jsonb::from_slice(&b))?.map_err(|e| format!("from_slice failed on a valid document: {e:?}"))?;
+        if nopanic("Value::array_length", || v.array_length())? != t::array_length(m) {
+            return Err(format!("Value::array_length = {:?}, tree says {:?}", v.array_length(), t::array_length(m)));
+        }
+        let vk = nopanic("Value::object_keys", || v.object_keys().map(|k| from_value(&k)))?;
+        let wk = t::object_keys(m);
+        if !(match (&vk, &wk) {
+            (Some(x), Some(y)) => x.ident_eq(y),
+            (None, None) => true,
+            _ => false,
+        }) {
+            return Err(format!("Value::object_keys = {vk:?}, tree says {:?}", t::object_keys(m)));
+        }
+        let vn = nopanic("Value::get_by_name_ignore_case", || v.get_by_name_ignore_case(&c.name).map(from_value))?;
+        let want = t::get_by_name(m, &c.name, true).map(|x| x.norm());
+        if !(match (&vn, &want) {
+            (Some(x), Some(y)) => x.ident_eq(y),
+            (None, None) => true,
+            _ => false,
+        }) {
+            return Err(format!("Value::get_by_name_ignore_case({:?}) = {vn:?}, tree says {want:?}", c.name));
+        }
+        // kind predicates of the decoded value
+        let kinds = (v.is_null(), v.is_boolean(), v.is_number(), v.is_string(), v.is_array(), v.is_object(), v.is_scalar());
+        let wantk = (
+            matches!(m, M::Null),
+            matches!(m, M::Bool(_)),
+            matches!(m, M::Num(_)),
+            matches!(m, M::Str(_)),
+            matches!(m, M::Arr(_)),
+            matches!(m, M::Obj(_)),
+            m.is_scalar(),
+        );
+        if kinds != wantk {
+            return Err(format!("Value::is_* = {kinds:?} for a {}", m.kind()));
+        }
+    }
+
     // get_by_index
     let idx = c.index as usize;
     let hit = sub_eq(&format!("get_by_index({idx})"), nopanic("get_by_index", || jsonb::get_by_index(&b, idx))?, t::get_by_index(m, idx))?;
